@@ -44,6 +44,13 @@ class Skeletons:
         self.functions_seen = set()
         self.inline_filter = inline_filter
         self.event_filter = event_filter
+        self.closure_by_type = {}
+        for n, f in funcs.items():
+            if '{closure' in n and f.params:
+                t = f.params[0][1]
+                m = re.search(r'(\{closure@[^}]*\})', t)
+                if m:
+                    self.closure_by_type.setdefault(m.group(1), n)
 
     def _ev(self, *events):
         if self.event_filter is None:
@@ -88,6 +95,9 @@ class Skeletons:
             pending = dict(pending)
             # statements: moves of guards between locals
             for s in blk.stmts:
+                m = re.match(r'^(_\d+) = (\{closure@[^}]*\})', s)
+                if m and m.group(2) in self.closure_by_type:
+                    pending['closure:' + m.group(1)] = self.closure_by_type[m.group(2)]
                 m = re.match(r'^(_\d+) = move (_\d+);$', s)
                 if m:
                     if m.group(2) in guards:
@@ -120,8 +130,10 @@ class Skeletons:
                     if g != '_0':
                         tr = tr + self._ev(('rel', guards[g]))
                 if '_0' in guards:
-                    self.problems.append('%s returns a guard (not modelled)' % fname)
-                out.add(tr + ())
+                    # the guard is handed to the caller: no release here; the caller's destination local owns it
+                    out.add(tr + (('retguard', guards['_0']),))
+                else:
+                    out.add(tr + ())
             elif k == 'end':
                 # unreachable / resume: not a normal completion; panics are handled by the caller of this analysis
                 if t['what'] == 'unreachable':
@@ -168,6 +180,16 @@ class Skeletons:
                     continue
                 ev = self.alpha(callee)
                 target = resolve_callee(callee, self.funcs, self.idx)
+                if target is None:
+                    # a crate-local closure handed to a std adaptor (bool::then, Option::map, ...): the adaptor may call it
+                    cl = [pending.get('closure:' + a) for a in arg_locals if ('closure:' + a) in pending]
+                    if cl and re.search(r'::(then|then_some|map|map_or|map_or_else|and_then|unwrap_or_else|or_else|get_or_insert_with|for_each|filter|retain)(?:::<.*>)?$', callee):
+                        target = cl[0]
+                        maybe_not_called = True
+                    else:
+                        maybe_not_called = False
+                else:
+                    maybe_not_called = False
                 if target is not None and self.funcs[target].blocks and (self.inline_filter is None or self.inline_filter(target)):
                     subs = self.traces(target)
                     if nxt is None:
@@ -176,8 +198,16 @@ class Skeletons:
                     if len(subs) * 1 > CAP:
                         self.problems.append('too many traces of %s' % target)
                         subs = set(list(subs)[:CAP])
+                    if maybe_not_called:
+                        stack.append((nxt, visits, guards, pending, pre))
                     for st in subs:
-                        stack.append((nxt, visits, guards, pending, pre + st))
+                        g2 = guards
+                        if st and st[-1][0] == 'retguard':
+                            g2 = dict(guards)
+                            if dest:
+                                g2[dest] = st[-1][1]
+                            st = st[:-1]
+                        stack.append((nxt, visits, g2, pending, pre + st))
                     continue
                 if ev:
                     tr = tr + self._ev(('call', ev))
